@@ -95,4 +95,72 @@ def decFeed (p : Params) (m : Method) : Nat → World → Nat → DecState → S
         | none => none
         | some (w', _) => decFeed p m fuel w' i o.st base (input.drop o.consumed) (pos + o.consumed)
 
+/-! ### Anchored input from the codec's own arena (`read_n`, `encode_read`, `decode_read`) -/
+
+/-- `Encoder::read_n` / `Decoder::read_n` = `self.iovec.arena().read_n(reader, count, attempts)`:
+`World.readN` on iovec `i`'s own arena, the arena put back.  Returns the world, the result (the
+anchored slice, or the io error kind) and the reader-side transcript. -/
+def readOwn (w : World) (i : Nat) (r : ReadN.Reader) (count attempts : Nat) :
+    Option (World × Except Nat ASlice × ReadN.Out) :=
+  match w.iov i with
+  | none => none
+  | some v =>
+    let (w1, ar', res, o) := w.readN v.arena r count attempts
+    let w2 := match w1.iov i with
+      | some v1 => w1.setIov i (some { v1 with arena := ar' })
+      | none => w1
+    some (w2, res, o)
+
+/-- The `push_anchor` that ends `encode_anchored` / `decode_anchored`; an empty slice is skipped
+entirely ("avoids accumulating useless anchors"). -/
+def pushAnchorOf (w : World) (i : Nat) (a : ASlice) : Option World :=
+  if a.slice.len = 0 then some w else w.pushAnchor i a.anchor
+
+/-- `Encoder::encode_anchored(a)` for a slice `a` of arena memory: `encode(a.slice)`, then
+`push_anchor(a.anchor)`. -/
+def encodeAnchored (p : Params) (w : World) (i : Nat) (e : EncW) (a : ASlice) : Option (World × EncW) :=
+  let bytes := w.sliceBytes a.slice
+  match encFeed p (2 * bytes.length + 2) w i e .borrow a.slice bytes 0 with
+  | none => none
+  | some (w', e') =>
+    match pushAnchorOf w' i a with
+    | some w'' => some (w'', e')
+    | none => none
+
+/-- `Encoder::encode_read(reader, count, attempts)`: `read_n`, then `encode_anchored` of what was read;
+a failed read encodes nothing.  Returns `Ok(bytes read)` or the io error kind. -/
+def encodeRead (p : Params) (w : World) (i : Nat) (e : EncW) (r : ReadN.Reader) (count attempts : Nat) :
+    Option (World × EncW × Except Nat Nat × ReadN.Out) :=
+  match readOwn w i r count attempts with
+  | none => none
+  | some (w1, .error k, o) => some (w1, e, .error k, o)
+  | some (w1, .ok a, o) =>
+    match encodeAnchored p w1 i e a with
+    | some (w2, e') => some (w2, e', .ok a.slice.len, o)
+    | none => none
+
+/-- `Decoder::decode_anchored(a)`: `decode(a.slice)`, then `push_anchor(a.anchor)` whatever the
+verdict. -/
+def decodeAnchored (p : Params) (w : World) (i : Nat) (s : DecState) (a : ASlice) :
+    Option (World × Except DecErr DecState) :=
+  let bytes := w.sliceBytes a.slice
+  match decFeed p .borrow (bytes.length + 1) w i s a.slice bytes 0 with
+  | none => none
+  | some (w', res) =>
+    match pushAnchorOf w' i a with
+    | some w'' => some (w'', res)
+    | none => none
+
+/-- `Decoder::decode_read(reader, count, attempts)`: outer `Except` = the io result of `read_n`
+(`Ok(bytes read)`), inner = the decoding verdict. -/
+def decodeRead (p : Params) (w : World) (i : Nat) (s : DecState) (r : ReadN.Reader) (count attempts : Nat) :
+    Option (World × Except Nat (Nat × Except DecErr DecState) × ReadN.Out) :=
+  match readOwn w i r count attempts with
+  | none => none
+  | some (w1, .error k, o) => some (w1, .error k, o)
+  | some (w1, .ok a, o) =>
+    match decodeAnchored p w1 i s a with
+    | some (w2, res) => some (w2, .ok (a.slice.len, res), o)
+    | none => none
+
 end Woodpile.EncWorld
